@@ -145,7 +145,7 @@ def b_sq(ch):
     if sum(1 for v in abc if v) < 2:
         ch.reject()
     deff = [ch.choose(n, [0.0, 0.3, -0.2], free=False) for n in 'DEF']
-    G = ch.choose('G', [-4.0, -1.0, 1.0], free=True)
+    G = ch.choose('G', [-4.0, -1.0, 0.0, 1.0], free=True)     # 0: cones, paraboloids in SQ form
     c = ch.choose('centre', [(0.0, 0.0, 0.0), (1.0, -1.0, 0.5), (-2.0, 0.5, 0.0)], free=True)
     # the equation is homogeneous: the same locus with all seven coefficients scaled
     h = ch.choose('equation-scale', [1.0, 1.0e-12, 1.0e9])
